@@ -48,8 +48,25 @@ def loop_rate(s, k):
     return tot
 
 
+def capped(s, vmax, cap):
+    """A user-written rate law with a one-armed if that rebinds a name the other path still reads."""
+    v = vmax * s
+    if v > cap:
+        v = cap
+    return v
+
+
+def switched(s, k, thr):
+    return k * s if s > thr else 0.25 * k * s * s
+
+
 def build_model(c, stiff=False):
     m = _build_model(c, stiff)
+    if c.get("userlaw"):
+        first = m.get_variable_names()[0]
+        m.add_parameters({"cap": 2.2, "thr": 0.8})
+        m.add_reaction("vcap", capped, args=[first, "kin", "cap"], stoichiometry={first: -1})
+        m.add_reaction("vsw", switched, args=[first, "kc", "thr"], stoichiometry={first: -1})
     if c.get("untr"):
         first = m.get_variable_names()[0]
         m.add_reaction("vu", loop_rate, args=[first, "kin"], stoichiometry={first: -1})
@@ -163,6 +180,13 @@ def generate(tier):
             continue
         cases.append({"net": net, "dorder": dorder, "coef": coef, "untouched": untouched, "time": time, "ia": ia,
                       "ratedep": ratedep, "mode": f"simulate:{method}"})
+    # user-written rate laws with statements and branches (everything else above is the shipped library)
+    for net, dorder, coef in it.product(NETWORKS, [[], ["d1"], ["d3", "d1", "d2"]], ("num", "scomp")):
+        base = {"net": net, "dorder": dorder, "coef": coef, "untouched": 0, "time": 0, "ia": 0, "ratedep": 0, "userlaw": 1}
+        cases.append({**base, "mode": "symbolic"})
+        if not dorder:
+            for method in METHODS:
+                cases.append({**base, "mode": f"simulate:{method}"})
     # a rate law that cannot be converted: to_symbolic_model raises, the simulator falls back with a warning
     for net, dorder, coef in it.product(NETWORKS, [[], ["d2", "d1"]], ("num", "pcomp")):
         base = {"net": net, "dorder": dorder, "coef": coef, "untouched": 0, "time": 0, "ia": 0, "ratedep": 0, "untr": 1}
